@@ -79,6 +79,8 @@ def main():
     frs = [(2, 2)] if tier == 'quick' else [(2, 2), (3, 2), (2, 3)]
     for F, S in frs:
         cands += K.k_fragment_is_recursive(R, F, S)
+    # Box at the use sites inside interface / union variants: F1 recursive, every embedding of it boxed and nothing else
+    cands += K.k_abstract_selection(R, 3, recursive_f1=True)
     cands = [c for c in cands if c['prop'] == 'C12']
     C = consumer.Consumer(sc)
     replayed = 0
@@ -119,6 +121,33 @@ def main():
     replayed += 2 * len(HISTORY_PAIRS)
     for key, desc, payload in hist:
         out.violation(key, desc, payload)
+    import abstract_common as AC
+    tried_abs, hit_abs = 0, False
+    abs_c = [c for c in cands if c['kernel'] == 'abstract_selection']
+    # a missing Box on F1 makes the types infinite; a superfluous Box elsewhere only changes the API: replay the former first
+    abs_c.sort(key=lambda c: ('-F1-' not in c['what'], c['model']['F1_on'] == 'PARENT', len(json.dumps(c['model']))))
+    seen_models = set()
+    for c in abs_c:
+        key = json.dumps(c['model'], sort_keys=True)
+        if key in seen_models:
+            continue
+        seen_models.add(key)
+        if tried_abs >= 4:
+            break
+        texts = synth.abstract_recursive_texts(c['model'])
+        if texts is None:
+            continue
+        tried_abs += 1
+        schema, query = texts
+        err = C.build(schema, query, 'Q', 'q')
+        replayed += 1
+        if err and ('E0072' in err or 'E0391' in err):
+            out.violation('variant-embeds-recursive-fragment-without-box', f'`{query.splitlines()[0]}` with F1 recursive: generated types have infinite size (E0072)',
+                          dict(kind='solver', model=c, schema=schema, query=query))
+            hit_abs = True
+            break
+    if abs_c and not hit_abs:
+        out.inconc(f'{len(abs_c)} variant Box counterexamples ({abs_c[0]["what"]}); the {tried_abs} replayed ones compile (a superfluous Box changes the API, not finiteness)')
     for w in R.inconclusive:
         out.inconc(w)
     cross = R.cross_check(limit=4 if tier == 'quick' else 20)
